@@ -811,6 +811,42 @@ def ecdsa_double_leading_zero(mon: Monitor, ctx, alg):
             mon.judge(base, "ecdsa-stripped", name, t, jkey, resolver, [alg, "none"], ep_name, ep)
 
 
+def rsa_leading_zero_signature(mon: Monitor, ctx, alg):
+    """an RSA signature whose first octet is zero (one in 256; found by trying payloads / salts): every length fault on it, in particular the
+    signature with that octet cut off - as an integer it is the same number, as a signature it is too short"""
+    key = key_for(alg)
+    rk = RefKey.from_jwk(key)
+    p64 = b64u_enc(json.dumps({"alg": alg}, separators=(",", ":")).encode())
+    hit = None
+    for m in range(4000):
+        payload = b'{"n":%d}' % m
+        sig = rjws.sign_raw(alg, rk, (p64 + "." + b64u_enc(payload)).encode())
+        if sig[0] == 0:
+            hit = (payload, sig)
+            break
+        if m % 100 == 0 and ctx.out_of_time():
+            break
+    if not hit:
+        ctx.count("rsa_leading_zero_not_found")
+        return
+    payload, sig = hit
+    tok = f"{p64}.{b64u_enc(payload)}.{b64u_enc(sig)}"
+    base = Base("compact", tok, [key], payload, [{"alg": alg, "protected_octets": b"", "header": None, "kid": None}])
+    ctx.count("rsa_leading_zero_bases")
+    run_base(mon, base, None, ctx, families={"sig-truncate", "sig-extend", "bitflip-signature"})
+    pubs = base.pub_jwks()
+    jkey, resolver = joserfc_key(pubs), ref_resolver(pubs)
+    stripped = sig.lstrip(b"\x00")
+    for name, alt in (("leading-zero-octet-cut", sig[1:]), ("all-leading-zeros-cut", stripped), ("zero-octet-prepended", b"\x00" + sig), ("two-zero-octets-prepended", b"\x00\x00" + sig)):
+        t = f"{p64}.{b64u_enc(payload)}.{b64u_enc(alt)}"
+        for ep_name, ep in entry_points(base):
+            mon.judge(base, "rsa-signature-length", name, t, jkey, resolver, [alg, "none"], ep_name, ep)
+    fj = {"payload": b64u_enc(payload), "protected": p64, "signature": b64u_enc(sig[1:])}
+    bj = Base("flat", fj, [key], payload, base.entries)
+    for ep_name, ep in entry_points(bj):
+        mon.judge(bj, "rsa-signature-length", "leading-zero-octet-cut/json", fj, jkey, resolver, [alg, "none"], ep_name, ep)
+
+
 def crit_nonstrict_cases(mon: Monitor, ctx):
     """RFC 7797 token (b64:false, crit) whose payload text is itself base64url, offered to the plain RFC 7515 entry points
     configured with strict_check_header=False: the signed payload is the text, so returning the decoded octets would be wrong."""
@@ -856,6 +892,8 @@ def plan(tier):
     items.append(("crit-nonstrict", "", 0))
     items.append(("many-signatures", "", 0))
     items.append(("long-run", "", 0))
+    for a in ("PS256", "RS256", "PS512", "PS384"):
+        items.append(("rsa-leading-zero", a, 0))
     items.append(("ecdsa-double-zero", "ES256", 0))
     items.append(("ecdsa-double-zero", "ES256K", 0))
     if tier == "thorough":
@@ -919,6 +957,9 @@ def run_shard(ctx):
             continue
         if alg == "many-signatures":
             many_signatures_cases(mon, ctx)
+            continue
+        if alg == "rsa-leading-zero":
+            rsa_leading_zero_signature(mon, ctx, form)
             continue
         if alg == "ecdsa-double-zero":
             ecdsa_double_leading_zero(mon, ctx, form)
